@@ -22,6 +22,6 @@ TraceAccepted == TLCGet("stats").diameter - 1 = Len(TraceLog)
 (* C01: every request terminates - with the service's answer or the decoy -, nothing crashes, the teamserver keeps running *)
 MonTerminates == \A r \in Reqs : (r \notin pending) => obs.state[r] # "pending"
 MonReplyOrDecoy == \A r \in Reqs : obs.state[r] \in {"none", "pending", "answer", "decoy"} /\ (outcome[r] = "answer" => obs.state[r] = "answer")
-MonBurstServed == obs.burstok
+MonBurstServed == obs.burstok      \* every request of a burst was handed to the service and has ended with a reply or the decoy (none waiting, stuck or crashed)
 MonKeepsRunning == obs.alive /\ obs.done
 =============================================================================
